@@ -1,6 +1,6 @@
 import SleapVerif.Model.Proto
 import SleapVerif.Model.Toposort
-/-! Driver for C17.  Line: `toposort <n> u1 v1 … un vn`  →  `ok i1 … in` | `raise` | `bad-op`. -/
+/-! Driver for C17.  Lines: `toposort <n> u1 v1 … un vn` → `ok i1 … in` | `raise`;  `arbo <n> u1 v1 …` → `1` | `0` (decidable hypothesis). -/
 open SleapVerif SleapVerif.Proto SleapVerif.Toposort
 
 def handle (line : String) : String :=
@@ -11,6 +11,10 @@ def handle (line : String) : String :=
       match toposort edges with
       | some l => "ok " ++ natsStr l
       | none => "raise"
+    | none => "bad-op"
+  | "arbo" :: rest =>
+    match runP (listOf (do let u ← nat; let v ← nat; pure (u, v))) rest with
+    | some edges => if isArbo edges then "1" else "0"
     | none => "bad-op"
   | _ => "bad-op"
 
